@@ -196,7 +196,7 @@ def to_case(v):
 def make_strategy_lines():
     from hypothesis import strategies as st
     return st.tuples(st.sampled_from(['CPP', 'JAVA', 'C', 'CPP']), st.booleans(), st.integers(0, 2 ** 32 - 1), st.integers(0, 2 ** 32 - 1)).flatmap(
-        lambda t: st.tuples(st.just(t), gen_lines.program(t[0], allow_switch=not t[1], force_braces=t[1], labels=True)))
+        lambda t: st.tuples(st.just(t), gen_lines.program(t[0], allow_switch=not t[1], force_braces=t[1], labels=True, pp=True)))
 
 
 def to_case_lines(v):
